@@ -46,13 +46,66 @@ def value_cases():
                      # constants: the same conversions on literal operands, used as values and inside comparisons
                      ["cast", litt, "Date"], ["cast", litd, "Datetime"],
                      ["fn", "equal", [d, ["cast", litt, "Date"]]], ["fn", "equal", [t, ["cast", litd, "Datetime"]]],
-                     ["fn", "less_than", [["cast", t, "Date"], ["cast", litt, "Date"]]]]))
+                     ["fn", "less_than", [["cast", t, "Date"], ["cast", litt, "Date"]]],
+                     # the converted value used further: compared with a stored datetime (midnight included), converted back
+                     ["fn", "equal", [t, ["cast", d, "Datetime"]]], ["fn", "less_equal", [t, ["cast", d, "Datetime"]]],
+                     ["fn", "greater_than", [["cast", d, "Datetime"], t]],
+                     ["fn", "equal", [["cast", ["cast", t, "Date"], "Datetime"], t]]]))
     return out
+
+
+def temporal_text(res):
+    """date / datetime -> string is not in the Coq model: a Python oracle.  The documented canonical text is
+    `YYYY-MM-DD` and `YYYY-MM-DD HH:MM:SS.ffffff` (six digits always), on both backends, also after date -> datetime."""
+    import datetime as dt
+    import warnings
+    import polars as pl
+    import sqlalchemy as sqa
+    import pydiverse.transform as pdt
+    from pydiverse.transform import extended as X
+    Ts = [None, dt.datetime(2024, 5, 17, 13, 45, 1, 5), dt.datetime(1999, 12, 31, 23, 59, 59), dt.datetime(2000, 2, 29, 0, 0, 0),
+          dt.datetime(2021, 3, 4, 3, 4, 5, 678901), dt.datetime(1970, 1, 1, 0, 0, 1, 1), dt.datetime(2038, 1, 19, 3, 14, 7, 999999),
+          dt.datetime(2010, 10, 10, 10, 10, 54, 12345), dt.datetime(1987, 6, 5, 4, 3, 2, 100000)]
+    D = [None, dt.date(2024, 5, 17), dt.date(1999, 12, 31), dt.date(2000, 2, 29), dt.date(2021, 3, 4), dt.date(1970, 1, 1),
+         dt.date(2038, 1, 19), dt.date(1900, 3, 1), dt.date(2099, 12, 31)]
+    df = pl.DataFrame({"k": list(range(len(Ts))), "t": Ts, "d": D})
+    eng = sqa.create_engine("sqlite://")
+    df.write_database("tt", eng)
+    exp = {"ts": [None if v is None else v.strftime("%Y-%m-%d %H:%M:%S.%f") for v in Ts],
+           "ds": [None if v is None else v.strftime("%Y-%m-%d") for v in D],
+           "dts": [None if v is None else v.strftime("%Y-%m-%d") + " 00:00:00.000000" for v in D],
+           "tds": [None if v is None else v.strftime("%Y-%m-%d") for v in Ts],
+           "ls": ["2021-03-04 03:04:05.678901"] * len(Ts)}
+    n = 0
+    for name, t in (("polars", pdt.Table(df, name="tt")), ("sqlite", pdt.Table("tt", X.SqlAlchemy(eng)))):
+        try:
+            with warnings.catch_warnings():
+                warnings.simplefilter("ignore")
+                r = (t >> X.mutate(ts=t.t.cast(pdt.String()), ds=t.d.cast(pdt.String()),
+                                   dts=t.d.cast(pdt.Datetime()).cast(pdt.String()), tds=t.t.cast(pdt.Date()).cast(pdt.String()),
+                                   ls=pdt.lit(dt.datetime(2021, 3, 4, 3, 4, 5, 678901)).cast(pdt.String()))
+                     >> X.arrange(t.k) >> X.export(X.Polars())).to_dict(as_series=False)
+        except Exception as ex:  # noqa: BLE001
+            res.violations.append({"what": f"{name}: temporal -> string casts fail with {type(ex).__name__}: {str(ex)[:160]}",
+                                   "found_input": True, "payload": {"backend": name, "oracle": "temporal_text"}})
+            continue
+        for col_, want in exp.items():
+            n += len(want)
+            if r[col_] != want:
+                i = next(j for j, (a, b) in enumerate(zip(r[col_], want)) if a != b)
+                res.violations.append({"what": f"{name}: cast to String ({col_}) of {Ts[i] if col_ in ('ts', 'tds') else D[i]!r}: "
+                                               f"{r[col_][i]!r} instead of the documented text {want[i]!r}",
+                                       "found_input": True, "payload": {"backend": name, "column": col_, "got": r[col_], "want": want}})
+                break
+    res.coverage["temporal_text_oracle"] = {"values_compared": n}
+    res.traces += n
 
 
 def run(ctx, res):
     cases = [] if ctx.replay else value_cases()
     pipeprop.run(ctx, res, "C17", {}, n_quick=0, n_thorough=0, extra_cases=cases, label="cast value grids")
+    if not ctx.replay:
+        temporal_text(res)
     # acceptance is decided at build time: a rejected cast raises DataTypeError from the constructor,
     # an accepted one never raises DataTypeError at export (checked on the grids above by L1);
     # the table itself is re-read by the translator and compared in-kernel (Properties/C17.v)
@@ -112,4 +165,4 @@ def run(ctx, res):
     res.coverage["acceptance_pairs"] = {"pairs": n, "accepted": acc, "other_exceptions": other}
     res.coverage["exhaustive"] = True
     res.coverage["partial"] = ["float -> string and string -> float values are not modelled",
-                               "date / datetime -> string formatting is not modelled"]
+                               "date / datetime -> string formatting is not in the Coq model: decided by the Python oracle temporal_text"]
